@@ -1,4 +1,6 @@
-(* C08 driver. case: "<mode> <init> <events>" (syntax: see harness/legs_c08.go).
+(* C08 driver. case: "<mode><configuration letters> <init> <events>" (syntax: see harness/legs_c08.go).
+   Configuration: n = the client sends no PluginPath (the deployed IsInDir does not depend on it: same instance toyA),
+   f = two workspace folders (p q are workspace files: instance toyA_all).
    Answer line: <model>\t<spec>\t<classes>
      model = what the faithful model of the server predicts, step by step (same format as the implementation leg:
              per file the diagnostics as <type>@<line>#<tag>, tag = hash of columns and message text),
@@ -24,6 +26,8 @@ let c08_text (code : string) : stmt list =
       | 'r' -> go (i + 2) (SR (c08_fid code.[i+1]) :: acc)
       | 'f' -> go (i + 2) (SF (n_of_int (Char.code code.[i+1] - 48)) :: acc)
       | 'g' -> go (i + 1) (SG :: acc)
+      | 'k' -> go (i + 2) (SK (n_of_int (Char.code code.[i+1] - 48)) :: acc)
+      | 't' -> go (i + 2) (ST (n_of_int (Char.code code.[i+1] - 48)) :: acc)
       | _ -> failwith ("bad content " ^ code) in
     go 0 []
   end
@@ -75,6 +79,8 @@ let c08_raw_tag (t : int) (ln : int) (tag : int) : string =
   | 4 -> mk 6 7 "v declared and not used"
   | 6 -> mk 0 12 ("require file error, not find file:" ^ c08_names.(tag))
   | 10 -> mk 0 11 (Printf.sprintf "gf call func param num(3) > func define param num(%d)" tag)
+  | 18 when tag >= 20 -> mk 10 12 (Printf.sprintf "duplicate annotate type: T%d" (tag - 20))
+  | 18 -> mk 9 11 (Printf.sprintf "not define annotate type: T%d" (tag - 10))
   | _ -> mk 0 0 (Printf.sprintf "?%d" tag)
 let c08_base36 (h : int) : string =
   if h = 0 then "0" else begin
@@ -107,22 +113,25 @@ let c08_class_name (k : n) : string =
 let c08_parse (line : string) =
   match split_ws line with
   | [m; init; evs] ->
-    let md = (match m with "A" -> MAll | "E" -> MEnd | "N" -> MNone | _ -> failwith "bad mode") in
+    let md = (match m.[0] with 'A' -> MAll | 'E' -> MEnd | 'N' -> MNone | _ -> failwith "bad mode") in
+    let cfg = String.sub m 1 (String.length m - 1) in
+    String.iter (fun c -> if c <> 'n' && c <> 'f' then failwith "bad configuration") cfg;
+    let ind = if String.contains cfg 'f' then toy_all_in else toy_in_dir in
     let dk = if init = "-" then [] else
         List.map (fun it -> let (f, t) = c08_split_eq it in (f, t)) (String.split_on_char ',' init) in
     let h = if evs = "-" then [] else List.map c08_action (String.split_on_char ';' evs) in
-    (md, dk, h)
+    (md, ind, dk, h)
   | _ -> failwith "BAD-CASE"
 
 let c08_line (fx : fixes) (line : string) : string =
-  let (md, dk, h) = c08_parse line in
-  let obs = toy_obs fx md (Obj.magic dk) h in
+  let (md, ind, dk, h) = c08_parse line in
+  let obs = toy_obs fx ind md (Obj.magic dk) h in
   let step_m ((v, fr), _) = c08_view v ^ (match fr with Some f -> "~" ^ c08_view f | None -> "") in
   let step_s ((_, fr), s) = c08_view s ^ (match fr with Some f -> "~" ^ c08_view f | None -> "") in
   let model = String.concat "|" (List.map step_m obs) in
-  let conf = toy_conformant fx (Obj.magic dk) h in
+  let conf = toy_conformant fx ind (Obj.magic dk) h in
   let spec = if conf then String.concat "|" (List.map step_s obs) else "-" in
-  let ks = List.sort_uniq compare (List.map c08_class_name (toy_classes fx (Obj.magic dk) h)) in
+  let ks = List.sort_uniq compare (List.map c08_class_name (toy_classes fx ind (Obj.magic dk) h)) in
   model ^ "\t" ^ spec ^ "\t" ^ (if ks = [] then "-" else String.concat "," ks)
 
 (* `deployed` (Model/Events.v) = the repairs that are in /repo now *)
@@ -132,6 +141,12 @@ let () = register "c08.raw" (c08_line deployed)
 let () = register "c08.batch" (c08_line deployed)
 (* switches between texts whose diagnostics differ in the message text only *)
 let () = register "c08.tagonly" (c08_line deployed)
+(* annotation types (check 18): deletion-only batches of the declaring file, duplicates *)
+let () = register "c08.anntype" (c08_line deployed)
+(* exploratory (not deciding): non-conformant histories with annotation statements *)
+let () = register "c08.annraw" (c08_line deployed)
+(* configurations of DirManager.IsInDir: no PluginPath option, two workspace folders *)
+let () = register "c08.indir" (c08_line deployed)
 (* the same history against the model with all repairs switched on / with those of round 1 / round 2 only / with none (not
    deciding legs; used by hand to validate a repair diff against a patched or an old copy of the code) *)
 let () = register "c08.history_fixed" (c08_line all_fix)
